@@ -58,19 +58,29 @@ def run_payload(mod, payload):
 
 
 def pinned(pid):
+    """Runs the pinned reproducers: open findings -> still failing?; fixed
+    findings -> ordinary regression cases (a fixed entry suppresses nothing)."""
     from .runner import load_prop, load_findings
 
     mod = load_prop(pid)
-    out = {}
+    out = {"open": {}, "regressions": []}
     for f in load_findings()["findings"]:
-        if f["property"] != pid or f["status"] != "open":
+        if f["property"] != pid:
             continue
         rep = f.get("reproducer")
-        if rep is None:
-            out[f["key"]] = True
-            continue
-        res = run_payload(mod, rep)
-        out[f["key"]] = any(v["key"] == f["key"] for v in res["violations"])
+        if f["status"] == "open":
+            if rep is None:
+                out["open"][f["key"]] = True
+                continue
+            res = run_payload(mod, rep)
+            out["open"][f["key"]] = any(v["key"] == f["key"] for v in res["violations"])
+        elif f["status"] == "fixed" and rep is not None:
+            res = run_payload(mod, rep)
+            for v in res["violations"]:
+                out["regressions"].append({"key": v["key"], "detail": "regression of fixed finding %r: %s" % (f["key"], v.get("detail")),
+                                           "payload": rep})
+            if res.get("inconclusive"):
+                out["regressions"].append({"key": "pinned-inconclusive", "detail": res["inconclusive"][:300], "payload": rep})
     print(json.dumps(out))
 
 
